@@ -2248,7 +2248,7 @@ func (e *Engine) intrinsic(st *State, f *Frame, x *ssa.Call, fn *ssa.Function, n
 		e.flush(st)
 		var vals []uint64
 		block := []*Term{}
-		for len(vals) <= 256 {
+		for len(vals) <= 512 {
 			r, m := e.check(append(append(append([]*Term(nil), st.pc...), block...)))
 			if r != RSat {
 				break
@@ -2257,8 +2257,8 @@ func (e *Engine) intrinsic(st *State, f *Frame, x *ssa.Call, fn *ssa.Function, n
 			vals = append(vals, v)
 			block = append(block, Not(Eq(t, Const(t.S.W, v))))
 		}
-		if len(vals) > 256 {
-			panic("verifConcretize: more than 256 feasible values")
+		if len(vals) > 512 {
+			panic("verifConcretize: more than 512 feasible values")
 		}
 		if len(vals) == 0 {
 			panic(pathEnd{"concretize: infeasible"})
